@@ -124,7 +124,7 @@ def regime(rng, cfg, first=False):
 
 
 def gen_case(item, rng, tier):
-    cfg = G.random_config(rng)
+    cfg = G.random_config(rng, extras=True)
     devices = G.std_devices()
     tables = {'kind': 'ram', 'begin': TABLES, 'end': TABLES + TABLES_SZ}
     if cfg['memory_system_architecture'] == 'VMSA':
